@@ -3795,11 +3795,18 @@ class BoutMesh(Mesh):
                 # are in the same radial location
                 ixseps2 = self.nx
             elif len(self.x_startinds) == 4:
-                # Two separatrices
-                if self.equilibrium.double_null_type == "lower":
+                # Two separatrices. ixseps1 belongs to the X-point whose legs are the
+                # first and last y-regions (BOUT++'s 'lower' X-point), which is the upper
+                # X-point if the grid starts at the upper outer divertor.
+                first_xpoint = self.equilibrium.double_null_type
+                if first_xpoint in ("lower", "upper") and getattr(
+                    self.equilibrium.user_options, "start_at_upper_outer", False
+                ):
+                    first_xpoint = "upper" if first_xpoint == "lower" else "lower"
+                if first_xpoint == "lower":
                     ixseps1 = self.x_startinds[1]
                     ixseps2 = self.x_startinds[2]
-                elif self.equilibrium.double_null_type == "upper":
+                elif first_xpoint == "upper":
                     ixseps1 = self.x_startinds[2]
                     ixseps2 = self.x_startinds[1]
                 else:
